@@ -142,7 +142,7 @@ func crumbTree(file string, path []Op) {
 }
 
 // Hung is set once an operation of the code under test did not return within
-// Watchdog (an endless loop, e.g. over a list that has become cyclic). The
+// seven times Watchdog (an endless loop, e.g. over a list that has become cyclic). The
 // operation is recorded as panicked - no specification allows that outcome -,
 // its goroutine is abandoned, and explorers stop expanding so that the run
 // ends promptly.
@@ -164,9 +164,21 @@ func guarded(f func()) bool {
 	case <-done:
 		return true
 	case <-t.C:
-		Hung.Store(true)
-		return false
 	}
+	// no answer in time: an endless loop, or a machine so loaded that the process did not get to run
+	// (seen once: six of twelve shard processes stalled for more than ten seconds at the same moment
+	// while a dozen other checks were running).  Grant six more periods before deciding.
+	for i := 0; i < 6; i++ {
+		t2 := time.NewTimer(Watchdog)
+		select {
+		case <-done:
+			t2.Stop()
+			return true
+		case <-t2.C:
+		}
+	}
+	Hung.Store(true)
+	return false
 }
 
 // Safe runs f and reports whether it panicked.
